@@ -1,9 +1,9 @@
-\* run twice (spec/LiteClient.tla and spec/proofs/typed/LiteClient.tla under spec/mc/LiteClient_MC.tla): the state counts must agree
+\* quick: 2 calls x 2 connections, 1 noise packet (pong | unknown id | duplicate | other)
 CONSTANTS
   Calls = {c1, c2}
   NConns = 2
   Unknown = unk
-  MaxDrops = 1
+  MaxDrops = 0
   MaxNoise = 1
   MaxSilence = 0
   StrictRst = TRUE
